@@ -90,8 +90,8 @@ def f_or(*fs):
 
 
 def weaken(f):
-    """drop every environment literal (sound weakening)"""
-    return _absorb([frozenset(l for l in c if l[0] == 'o') for c in f])
+    """keep only what cannot change during the run: option atoms and Settings flags (sound weakening)"""
+    return _absorb([frozenset(l for l in c if l[0] == 'o' or l[1].startswith("S.")) for c in f])
 
 
 def f_and(*fs):
@@ -123,6 +123,10 @@ def pcify(f):
     if not any(l[0] == 'l' and l[1].startswith("~") for c in f for l in c):
         return f
     return _absorb([frozenset(l for l in c if not (l[0] == 'l' and l[1].startswith("~"))) for c in f])
+
+
+def weaken_keep(f):
+    return f
 
 
 def atom(a):
@@ -1182,19 +1186,28 @@ class Analyzer:
         elif end_e == FF and end_t != FF:
             fr.bind = bind_t
         else:
-            # join: variables assigned in either branch are merged (enum) or become opaque (new version)
+            # join: a variable assigned in a branch takes the value of the branch that was executed; the facts that hold at the
+            # end of that branch are kept with it (`if (c) { if (!printInconclusive) continue; flag = true; }`)
             merged = dict(bind0)
             for did in (a_t | a_e):
-                bt, be = bind_t.get(did), bind_e.get(did)
-                if bt and be and bt[0] == 'enum' and be[0] == 'enum':
-                    lv = [(f_and(cb[0], p), l) for p, l in bt[1]] + [(f_and(cb[1], p), l) for p, l in be[1]]
+                if did is None:
+                    continue
+                bt, be, b0 = bind_t.get(did), bind_e.get(did), bind0.get(did)
+                kind = next((b[0] for b in (bt, be, b0) if b), None)
+                fr.ver[did] = fr.ver.get(did, 0) + 1
+                merged.pop(did, None)
+                if did in fr.volatile:
+                    continue
+                if kind == 'bool':
+                    vt = bt[1] if bt and bt[0] == 'bool' else B_ANY
+                    ve = be[1] if be and be[0] == 'bool' else B_ANY
+                    own = babs_lit(fr.vkey(did))
+                    merged[did] = ('bool', (f_and(own[0], f_or(f_and(weaken_keep(end_t), vt[0]), f_and(weaken_keep(end_e), ve[0]))),
+                                            f_and(own[1], f_or(f_and(weaken_keep(end_t), vt[1]), f_and(weaken_keep(end_e), ve[1])))))
+                elif kind == 'enum' and bt and be and bt[0] == 'enum' and be[0] == 'enum':
+                    lv = [(f_and(cb[0], weaken_keep(end_t), p), l) for p, l in bt[1]] + [(f_and(cb[1], weaken_keep(end_e), p), l) for p, l in be[1]]
                     merged[did] = ('enum', [(p, l) for p, l in lv if p != FF])
-                else:
-                    merged.pop(did, None)
             fr.bind = merged
-            for did in (a_t | a_e):
-                if did is not None and not (did in merged and merged[did][0] == 'enum'):
-                    fr.ver[did] = fr.ver.get(did, 0) + 1
         return f_or(end_t, end_e)
 
     STMT_KINDS = ("CompoundStmt", "IfStmt", "DeclStmt", "ForStmt", "WhileStmt", "DoStmt", "CXXForRangeStmt", "SwitchStmt", "ReturnStmt",
